@@ -137,6 +137,8 @@ theorem Response.decode_ne_panic (bytes : Bytes) : Response.decode bytes ≠ .pa
   case writeMultipleCoils | writeSingleRegister | writeMultipleRegisters =>
     refine read16_bind_ne_panic (by omega) (fun a => ?_)
     exact read16_bind_ne_panic (by omega) (fun p => ok_ne_panic _)
+  case readExceptionStatus =>
+    exact idx_bind_ne_panic (by omega) (fun s => ok_ne_panic _)
   all_goals
     exact sliceFrom_bind_ne_panic (by omega) (fun _ => ok_ne_panic _)
 
